@@ -11,6 +11,7 @@ import (
 	"encoding/xml"
 
 	"mellium.im/xmlstream"
+	"mellium.im/xmpp/internal/ns"
 )
 
 // BUG(ssw): This package is very inefficient, see https://mellium.im/issue/38.
@@ -30,30 +31,91 @@ func TokenReader(v interface{}) (xml.TokenReader, error) {
 }
 
 func tokenDecoder(v interface{}) (*xml.Decoder, error) {
+	d, _, err := newTokenDecoder(v)
+	return d, err
+}
+
+// newTokenDecoder is like tokenDecoder but also reports whether the decoder
+// reads the textual output of an xml.Encoder (as opposed to the tokens of a
+// reader supplied by the value).
+func newTokenDecoder(v interface{}) (d *xml.Decoder, encoded bool, err error) {
 	// If the payload is itself a marshaler, let it create its own token reader.
 	if m, ok := v.(xmlstream.Marshaler); ok {
-		return xml.NewTokenDecoder(m.TokenReader()), nil
+		return xml.NewTokenDecoder(m.TokenReader()), false, nil
 	}
 	// If the payload to marshal is already a TokenReader, just return it.
 	if r, ok := v.(xml.TokenReader); ok {
-		return xml.NewTokenDecoder(r), nil
+		return xml.NewTokenDecoder(r), false, nil
 	}
 
 	var b bytes.Buffer
-	err := xml.NewEncoder(&b).Encode(v)
+	err = xml.NewEncoder(&b).Encode(v)
 	if err != nil {
-		return nil, err
+		return nil, false, err
 	}
-	return xml.NewDecoder(&b), nil
+	return xml.NewDecoder(&b), true, nil
 }
 
 // rawTokenReader maps a decoders RawToken method onto its Token method.
+//
+// Raw tokens keep the element names and name space declarations exactly as
+// they were written, so that copying them to an encoder reproduces the text.
+// Attribute names however carry the prefix they were written with in their
+// Space field, which an encoder would take for a name space: if resolve is set
+// attribute prefixes are replaced by the name space they are bound to and the
+// declarations of prefixes (which the encoder writes itself) are dropped.
 type rawTokenReader struct {
 	*xml.Decoder
+	resolve bool
+	depth   int
+	ns      []prefixBinding
 }
 
-func (r rawTokenReader) Token() (xml.Token, error) {
-	return r.RawToken()
+type prefixBinding struct {
+	depth       int
+	prefix, uri string
+}
+
+func (r *rawTokenReader) Token() (xml.Token, error) {
+	t, err := r.RawToken()
+	if !r.resolve || err != nil {
+		return t, err
+	}
+	switch tok := t.(type) {
+	case xml.StartElement:
+		r.depth++
+		for _, attr := range tok.Attr {
+			if attr.Name.Space == "xmlns" {
+				r.ns = append(r.ns, prefixBinding{depth: r.depth, prefix: attr.Name.Local, uri: attr.Value})
+			}
+		}
+		attrs := make([]xml.Attr, 0, len(tok.Attr))
+		for _, attr := range tok.Attr {
+			switch attr.Name.Space {
+			case "":
+			case "xmlns":
+				continue
+			case "xml":
+				attr.Name.Space = ns.XML
+			default:
+				for i := len(r.ns) - 1; i >= 0; i-- {
+					if r.ns[i].prefix == attr.Name.Space {
+						attr.Name.Space = r.ns[i].uri
+						break
+					}
+				}
+			}
+			attrs = append(attrs, attr)
+		}
+		tok.Attr = attrs
+		return tok, nil
+	case xml.EndElement:
+		for len(r.ns) > 0 && r.ns[len(r.ns)-1].depth >= r.depth {
+			r.ns = r.ns[:len(r.ns)-1]
+		}
+		r.depth--
+	}
+	return t, nil
 }
 
 // EncodeXML writes the XML encoding of v to the stream.
@@ -68,11 +130,11 @@ func EncodeXML(w xmlstream.TokenWriter, v interface{}) error {
 		_, err := wt.WriteXML(w)
 		return err
 	}
-	d, err := tokenDecoder(v)
+	d, encoded, err := newTokenDecoder(v)
 	if err != nil {
 		return err
 	}
-	_, err = xmlstream.Copy(w, rawTokenReader{Decoder: d})
+	_, err = xmlstream.Copy(w, &rawTokenReader{Decoder: d, resolve: encoded})
 	if err != nil {
 		return err
 	}
@@ -132,11 +194,11 @@ func EncodeXMLElement(w xmlstream.TokenWriter, v interface{}, start xml.StartEle
 		_, err := wt.WriteXML(ow)
 		return err
 	}
-	d, err := tokenDecoder(v)
+	d, encoded, err := newTokenDecoder(v)
 	if err != nil {
 		return err
 	}
-	_, err = xmlstream.Copy(ow, rawTokenReader{Decoder: d})
+	_, err = xmlstream.Copy(ow, &rawTokenReader{Decoder: d, resolve: encoded})
 	if err != nil {
 		return err
 	}
